@@ -557,27 +557,50 @@ Section Step.
       + intros Hoc. unfold nopt in *. cbn [allnodes kind_of Topt andb]. apply C. rewrite Hon. apply Ho, Hoc.
   Qed.
 
+  Lemma step_option c head tail adv r :
+    positional head = true -> is_opt c = true -> good c -> gn (S f) c (head :: tail) adv = Ok r -> gnP c r.
+  Proof.
+    intros Hp Hop Hg H. rewrite gn_option in H by assumption. apply bind_Ok in H as ([ix c0] & Hoi & H). cbn [fst] in H.
+    apply bind_Ok in H as (p & Hpc & H). apply bind_Ok in H as (r0 & Hr0 & H). inversion H; subst r.
+    destruct Hg as (HV & Hs & Hf). destruct (option_index_valid _ _ _ HV Hoi) as (HVc & _ & Hn & _).
+    assert (Hc0 : c0 = opt_content c /\ nostr c0 = true /\ nopt c0 = true).
+    { unfold nostr in *. destruct c; try discriminate Hop; cbn [option_index] in Hoi; cbn [allnodes kind_of] in Hs; cbn [gi_frag] in Hf;
+        apply andb_true_iff in Hs as [_ Hs]; try (apply bind_Ok in Hoi as (? & _ & Hoi)); inversion Hoi; subst; auto. }
+    destruct Hc0 as (-> & Hs0 & Ho0).
+    assert (Hgc : good (opt_content c)) by (split; [exact HVc|split; [exact Hs0|apply nopt_gi_frag, Ho0]]).
+    destruct (carry_good _ _ _ Hgc Hpc) as (Hgp & Hcp & Hop'). destruct (IH _ _ _ _ Hgp Hr0) as ((A1 & A2 & A3) & B & C).
+    assert (Hor : nopt r0 = true) by (apply C; rewrite Hop'; exact Ho0).
+    destruct (outindex_spec ix 0 (Z.le_refl 0)) as [E F]. clear H Hr0 Hpc Hoi IH.
+    split; [split; [|split]|split].
+    - constructor; [exact I| |apply nopt_not_optionlike, Hor|exact A1].
+      eapply Forall_impl; [|exact E]. cbv beta. intros i Hi. clear - Hi Hcp B. lia.
+    - unfold nostr in *. cbn [allnodes kind_of Tstr andb]. exact A2.
+    - cbn [gi_frag]. exact Hor.
+    - cbn [clen]. clear - F Hn. lia.
+    - intros Hoc. exfalso. unfold nopt in Hoc. destruct c; try discriminate Hop; cbn [allnodes kind_of Topt andb] in Hoc; discriminate Hoc.
+  Qed.
+
   Lemma step_positional c head tail adv r :
     positional head = true -> is_nd c = false -> good c -> gn (S f) c (head :: tail) adv = Ok r -> gnP c r.
   Proof.
     intros Hp Hnd Hg H. pose proof Hg as (HV & Hs & Hf).
     destruct c as [dt sh data| |w o c|w s e c|c size zl|w ix c|w ix c|m vw c|m vw lsb n c|c|w t ix cs|cs ks n|arr rn c].
-    - rewrite gn_numpy1 in H; [discriminate|exact Hp|]. destruct sh as [|? [|? ?]]; try reflexivity. discriminate.
-    - rewrite gn_empty in H by exact Hp. discriminate.
-    - destruct head; try discriminate; [eapply step_list_IAt|eapply step_list_IRange|eapply step_list_IArray]; eauto.
-    - destruct head; try discriminate; [eapply step_list_IAt|eapply step_list_IRange|eapply step_list_IArray]; eauto.
-    - destruct head; try discriminate; [eapply step_list_IAt|eapply step_list_IRange|eapply step_list_IArray]; eauto.
+    - rewrite gn_numpy1 in H; [discriminate H|exact Hp|]. destruct sh as [|? [|? ?]]; try reflexivity. discriminate Hnd.
+    - rewrite gn_empty in H by exact Hp. discriminate H.
+    - destruct head; try discriminate Hp; [eapply step_list_IAt|eapply step_list_IRange|eapply step_list_IArray]; solve [exact Hg|exact H|reflexivity].
+    - destruct head; try discriminate Hp; [eapply step_list_IAt|eapply step_list_IRange|eapply step_list_IArray]; solve [exact Hg|exact H|reflexivity].
+    - destruct head; try discriminate Hp; [eapply step_list_IAt|eapply step_list_IRange|eapply step_list_IArray]; solve [exact Hg|exact H|reflexivity].
     - (* Indexed *)
       rewrite gn_Indexed in H by exact Hp. apply bind_Ok in H as (p & Hpc & H). inversion HV; subst. cbn [gi_frag] in Hf.
       unfold nostr in Hs. cbn [allnodes kind_of] in Hs. apply andb_true_iff in Hs as [_ Hs].
       assert (Hgc : good c) by (split; [assumption|split; [exact Hs|apply nopt_gi_frag, Hf]]).
       destruct (carry_good _ _ _ Hgc Hpc) as (Hgp & Hcp & _). destruct (IH _ _ _ _ Hgp H) as (A & B & _).
       split; [exact A|]. split; [cbn [clen]; lia|]. unfold nopt at 1. cbn [allnodes kind_of Topt andb]. discriminate.
-    - eapply step_option; eauto.
-    - eapply step_option; eauto.
-    - eapply step_option; eauto.
-    - eapply step_option; eauto.
-    - rewrite gn_Union_pos in H by exact Hp. discriminate.
+    - eapply step_option; [exact Hp|reflexivity|exact Hg|exact H].
+    - eapply step_option; [exact Hp|reflexivity|exact Hg|exact H].
+    - eapply step_option; [exact Hp|reflexivity|exact Hg|exact H].
+    - eapply step_option; [exact Hp|reflexivity|exact Hg|exact H].
+    - rewrite gn_Union_pos in H by exact Hp. discriminate H.
     - (* Record *)
       rewrite gn_Record_pos in H by exact Hp. apply bind_Ok in H as (cs' & Hcs' & H). inversion HV; subst.
       match goal with HVs : Forall (Valid None) cs, Hn : Forall (fun x => n <= clen x) cs |- _ => rewrite Forall_forall in HVs, Hn; rename HVs into HVs0; rename Hn into Hn0 end.
@@ -599,3 +622,85 @@ Section Step.
       unfold nopt at 1. cbn [allnodes kind_of Topt andb]. exact C.
   Qed.
 End Step.
+
+Lemma good_expand_nd c : is_nd c = true -> good c -> good (expand c) /\ nopt (expand c) = true.
+Proof.
+  intros Hnd (HV & _ & _). destruct c as [dt [|n [|m sh]] data| | | | | | | | | | | |]; try discriminate Hnd.
+  split; [split; [apply expand_valid_p, HV|split]|]; cbn [expand]; [apply np_allnodes; reflexivity|apply np_gi|apply np_allnodes; reflexivity].
+Qed.
+
+Lemma gnP_refl c : good c -> gnP c c.
+Proof. intros Hg. split; [exact Hg|]. split; [lia|auto]. Qed.
+
+Lemma gn_good : forall f c items adv r, good c -> gn f c items adv = Ok r -> gnP c r.
+Proof.
+  induction f as [|f IH]; intros c items adv r Hg H; [rewrite gn_0 in H; discriminate H|].
+  destruct items as [|head tail]; [rewrite gn_nil in H; inversion H; subst; apply gnP_refl, Hg|].
+  destruct (is_nd c) eqn:Hnd.
+  - rewrite gn_nd in H by exact Hnd. destruct (good_expand_nd c Hnd Hg) as [Hge Hoe].
+    destruct (IH _ _ _ _ Hge H) as (A & B & C). rewrite clen_expand in B. split; [exact A|]. split; [exact B|auto].
+  - destruct head.
+    + apply (step_positional f IH c (IAt i) tail adv r eq_refl Hnd Hg H).
+    + apply (step_positional f IH c (IRange start stop step) tail adv r eq_refl Hnd Hg H).
+    + (* IEllipsis *)
+      rewrite gn_IEllipsis in H by (apply nd_not, Hnd). destruct (minmax (type_of c)) as [mn mx]. cbv zeta in H.
+      destruct tail as [|t0 tail']; [inversion H; subst; apply gnP_refl, Hg|].
+      destruct ((mn - 1 =? dim_items (t0 :: tail')) && (mx - 1 =? dim_items (t0 :: tail'))); [apply (IH _ _ _ _ Hg H)|].
+      destruct ((mn - 1 =? dim_items (t0 :: tail')) || (mx - 1 =? dim_items (t0 :: tail'))); [discriminate H|apply (IH _ _ _ _ Hg H)].
+    + (* INewAxis *)
+      rewrite gn_INewAxis in H by (apply nd_not, Hnd). apply bind_Ok in H as (r0 & Hr0 & H). inversion H; subst r.
+      destruct (IH _ _ _ _ Hg Hr0) as ((A1 & A2 & A3) & B & C). pose proof (good_clen r0 (conj A1 (conj A2 A3))) as Hn0.
+      split; [split; [|split]|split].
+      * constructor; [exact I|lia|exact Hn0|intros _; exact A1].
+      * unfold nostr in *. cbn [allnodes kind_of Tstr andb]. exact A2.
+      * exact A3.
+      * cbn [clen]. change (1 =? 0) with false. cbv iota. rewrite Z.div_1_r. exact B.
+      * intros Hoc. unfold nopt in *. cbn [allnodes kind_of Topt andb]. apply C, Hoc.
+    + apply (step_positional f IH c (IArray ix) tail adv r eq_refl Hnd Hg H).
+    + (* IField *)
+      rewrite gn_IField in H by exact Hnd. apply bind_Ok in H as (f0 & Hf0 & H).
+      destruct (good_value c Hg) as [vs Hl]. destruct Hg as (HV & Hs & Hf).
+      destruct (field_content_valid_all k c false vs f0 HV Hl (gi_fc_frag k c false Hf ltac:(discriminate)) Hf0) as (X1 & X2 & _).
+      assert (Hg0 : good f0).
+      { split; [exact X1|]. split; [apply (field_content_allnodes _ _ _ _ Hf0 Hs)|apply (field_content_gi _ _ _ Hf0 Hf)]. }
+      apply (gnP_trans c f0 r); [lia|intros Ho; apply (field_content_allnodes _ _ _ _ Hf0 Ho)|apply (IH _ _ _ _ Hg0 H)].
+    + (* IFields *)
+      rewrite gn_IFields in H by exact Hnd. apply bind_Ok in H as (f0 & Hf0 & H). destruct Hg as (HV & Hs & Hf).
+      destruct (fields_content_valid_all ks c f0 HV Hf0) as (X1 & X2 & _).
+      assert (Hg0 : good f0).
+      { split; [exact X1|]. split; [apply (fields_content_allnodes _ _ _ _ Hf0 Hs)|apply (fields_content_gi _ _ _ Hf0 Hf)]. }
+      apply (gnP_trans c f0 r); [lia|intros Ho; apply (fields_content_allnodes _ _ _ _ Hf0 Ho)|apply (IH _ _ _ _ Hg0 H)].
+Qed.
+
+(* all item kinds; the fragment: no string nodes, option-type / indexed nodes not nested *)
+Theorem getitem_preserves_valid_partial : forall items c c',
+  Valid None c -> nostr c = true -> gi_frag c = true -> getitem_model items c = Ok c' -> Valid None c'.
+Proof.
+  intros items c c' HV Hs Hf H. unfold getitem_model in H.
+  assert (Hg : good c) by (split; [exact HV|split; assumption]).
+  assert (Hgr : good (Regular c (clen c) 1)).
+  { split; [constructor; [exact I|apply good_clen, Hg|lia|intros _; exact HV]|]. split; [|exact Hf].
+    unfold nostr in *. cbn [allnodes kind_of Tstr andb]. exact Hs. }
+  apply (gn_good _ _ _ _ _ Hgr H).
+Qed.
+
+(* the model wraps results in IndexedOptionArray without simplifying *)
+Example getitem_preserves_valid_refuted :
+  let c := IndexedOption I64 [0] (ListOffset I64 [0; 1] (IndexedOption I64 [-1] Empty)) in
+  let items := [IRange None None None; IAt 0] in
+  valid_b c = true /\ nostr c = true /\ gi_frag c = false /\
+  (do r <- getitem_model items c; Ok (valid_b r)) = Ok false.
+Proof. vm_compute. repeat split. Qed.
+
+Example getitem_preserves_valid_ex :
+  let c := ListOffset I64 [0; 2; 3]
+             (ByteMasked [1; 0; 1] true
+                (Record [Regular (Numpy DInt64 [3; 2] [DZ 1; DZ 2; DZ 3; DZ 4; DZ 5; DZ 6]) 1 3;
+                         ListOffset I64 [0; 1; 1; 3] (Numpy DFloat64 [3] [DZ 7; DNaN; DZ 9])] (Some [[120]; [121]]) 3)) in
+  let ok := fun r : res content => match r with Ok c' => valid_b c' | Err _ => false end in
+  valid_b c = true /\ nostr c = true /\ gi_frag c = true /\
+  forallb ok [getitem_model [IAt 1] c; getitem_model [IRange (Some 1) None None; IAt 0] c;
+              getitem_model [IArray [1; 0; 0]; IArray [0; 0; 1]] c; getitem_model [IField [121]; IEllipsis; IAt 0] c;
+              getitem_model [IRange None None (Some (-1)); INewAxis; IRange None (Some 1) None; IFields [[121]; [120]]] c;
+              getitem_model [IField [120]; IAt 0; IAt 0; IAt 0; IAt 1] c] = true.
+Proof. vm_compute. repeat split. Qed.
